@@ -48,6 +48,9 @@ type event struct {
 	Err  string   `json:"err,omitempty"`
 	Data [][2]int `json:"data"`
 	Src  any      `json:"src,omitempty"` // reset events: where the history comes from (calls of a model behaviour / scripts)
+	// reset events of replayed behaviours: the pipe left the model's path (or the behaviour was cut short); a history
+	// without this mark equals the model's own path at every quiescent point
+	Drift bool `json:"drift,omitempty"`
 	// not part of the trace TLC reads
 	call int // index of the matching call event (ret events)
 }
@@ -997,6 +1000,7 @@ end:
 	}
 	res.Sample(map[string]any{"behaviour": bi, "calls": hist}, 2)
 	w.log[0].Src = hist
+	w.log[0].Drift = drifted || needRealtime || steps < len(b.Steps)
 	trace = w.ndjson()
 	if needRealtime {
 		trace += replayBehaviour(in, bi, b, res, true)
